@@ -313,6 +313,11 @@ func ReqUploadMedia(b, name string, data []byte, m ObjMeta, conds map[string]str
 	return r
 }
 
+// AltType, when not empty, is what the SECONDARY carrier of the content type says (the Content-Type of the media
+// part of a multipart upload, the X-Upload-Content-Type header of a resumable initiation) while the object resource
+// names its own contentType: the resource wins.
+var AltType string
+
 func ReqUploadMultipart(b, name string, data []byte, m ObjMeta, conds map[string]string, gzipBody bool) HTTPReq {
 	var buf bytes.Buffer
 	mw := multipart.NewWriter(&buf)
@@ -325,6 +330,8 @@ func ReqUploadMultipart(b, name string, data []byte, m ObjMeta, conds map[string
 	ct := m.ContentType
 	if ct == "" {
 		ct = "application/octet-stream"
+	} else if AltType != "" {
+		ct = AltType
 	}
 	h2.Set("Content-Type", ct)
 	p2, _ := mw.CreatePart(h2)
@@ -340,8 +347,12 @@ func ReqUploadMultipart(b, name string, data []byte, m ObjMeta, conds map[string
 }
 
 func ReqResumableStart(b, name string, m ObjMeta, conds map[string]string) HTTPReq {
+	xt := m.ContentType
+	if xt != "" && AltType != "" {
+		xt = AltType
+	}
 	return HTTPReq{Method: "POST", URL: "/upload/storage/v1/b/" + b + "/o?uploadType=resumable" + condQuery(conds),
-		Header: map[string]string{"Content-Type": "application/json; charset=UTF-8", "X-Upload-Content-Type": m.ContentType}, Body: metaJSON(name, m)}
+		Header: map[string]string{"Content-Type": "application/json; charset=UTF-8", "X-Upload-Content-Type": xt}, Body: metaJSON(name, m)}
 }
 
 // ReqResumableChunk: the session URL is what the server answered in Location (path+query).
